@@ -114,6 +114,7 @@ type world struct {
 	tol    int64 // completeness tolerance in seconds
 	jitter int64 // position of the slot-1 block after the day start (0 or tol: within tolerance)
 	last   int   // LastSlot of the model configuration
+	twin   bool  // the two writers' payloads of a slot have identical totals (and drops) but other flows
 	ifaces map[string]string
 	dayTS  map[int]int64
 }
@@ -130,6 +131,7 @@ func newWorld(seed uint64, c *caseT) *world {
 	w.tol = []int64{150, 600}[rng.Intn(2)]
 	w.jitter = []int64{0, w.tol}[rng.Intn(2)]
 	w.last = c.LastSlot
+	w.twin = seed%3 == 2 || rng.Intn(4) == 0
 	n := ifaceSets[rng.Intn(len(ifaceSets))]
 	w.ifaces["a"], w.ifaces["b"], w.ifaces["zz"] = n[0], n[1], n[2]
 	w.dayTS[1] = store.Day0 + 86400*int64(rng.Intn(10))
@@ -178,17 +180,28 @@ func ifaceIdx(m string) int {
 }
 
 // payload of the block written by origin p ("S"/"D") for (iface, day, slot)
+//
+// In a twin world the destination writer's block of a slot aggregates to exactly the totals of the
+// source writer's block (same number of IPv4 / IPv6 entries, same counter sums, same drops) although
+// every flow differs (other destination port): days with the same slots then carry the same metadata
+// suffix in their directory name whoever wrote them.
 func (w *world) flows(p, iface string, day, slot int) []store.Flow {
 	id := slot + 8*(day-1) + 16*ifaceIdx(iface)
-	if p == "D" {
+	if p == "D" && !w.twin {
 		id += 32
 	}
-	return store.FlowsFor(w.seed, id, "s")
+	fl := store.FlowsFor(w.seed, id, "s")
+	if p == "D" && w.twin {
+		for i := range fl {
+			fl[i].Dport += 1000
+		}
+	}
+	return fl
 }
 
-func drops(p, iface string, day, slot int) uint64 {
+func (w *world) drops(p, iface string, day, slot int) uint64 {
 	d := uint64(slot + 10*day + 100*ifaceIdx(iface))
-	if p == "D" {
+	if p == "D" && !w.twin {
 		d += 1000
 	}
 	return d
@@ -217,7 +230,7 @@ func (w *world) build(db string, days []dayT) error {
 		sort.Slice(bl, func(i, j int) bool { return bl[i].Slot < bl[j].Slot })
 		for _, b := range bl {
 			fm := store.FlowMap(w.flows(b.P, d.Iface, d.Day, b.Slot))
-			if err := wr.Write(fm, capturetypes.CaptureStats{Dropped: drops(b.P, d.Iface, d.Day, b.Slot)}, w.slotTS(d.Day, b.Slot)); err != nil {
+			if err := wr.Write(fm, capturetypes.CaptureStats{Dropped: w.drops(b.P, d.Iface, d.Day, b.Slot)}, w.slotTS(d.Day, b.Slot)); err != nil {
 				return fmt.Errorf("building %s: %v", db, err)
 			}
 		}
@@ -379,12 +392,12 @@ func (w *world) observe(db, hash string, qcache map[string][]obsDay) observation
 							c.Add(f.C)
 						}
 						bt := d.BlockTraffic[bi]
-						if bt.NumV4Entries != v4 || bt.NumV6Entries != v6 || bt.NumDrops != drops(lbl, mi, day, slot) {
+						if bt.NumV4Entries != v4 || bt.NumV6Entries != v6 || bt.NumDrops != w.drops(lbl, mi, day, slot) {
 							anom("%s day %d slot %d: block metadata %+v does not describe the block's payload (%s)", mi, day, slot, bt, lbl)
 						}
 						tot.NumV4Entries += v4
 						tot.NumV6Entries += v6
-						tot.NumDrops += drops(lbl, mi, day, slot)
+						tot.NumDrops += w.drops(lbl, mi, day, slot)
 						cnt.Add(c)
 					}
 				}
@@ -731,7 +744,7 @@ func Replay(seed uint64, tmp string, verbose bool, in io.Reader, out io.Writer) 
 				plans[p.Plan+"/"+p.Src+"/"+p.Dst]++
 			}
 		}
-		conc := map[string]any{"tolerance_s": w.tol, "first_block_offset_s": w.jitter, "last_slot": w.last, "slot_positions": "1: day start + first_block_offset; 2: tolerance+1 s; k: (k-2)*4 h; last: 23:55", "ifaces": w.ifaces, "days": w.dayTS}
+		conc := map[string]any{"tolerance_s": w.tol, "first_block_offset_s": w.jitter, "last_slot": w.last, "twin_payloads": w.twin, "slot_positions": "1: day start + first_block_offset; 2: tolerance+1 s; k: (k-2)*4 h; last: 23:55", "ifaces": w.ifaces, "days": w.dayTS}
 		if verbose {
 			o.Emit(map[string]any{"verbose": true, "got": got, "concretisation": conc})
 		}
